@@ -324,7 +324,7 @@ where
     #[inline(always)]
     unsafe fn get_unchecked(&self, i: usize) -> Self::Item {
         let mut cur_i = i;
-        let mut result: u32 = 0;
+        let mut result: u128 = 0;
 
         let mut shift = 0;
 
@@ -334,7 +334,7 @@ where
             }
 
             let symbol = self.bvs[level].get_unchecked(cur_i);
-            result = (result << 1) | symbol as u32;
+            result = (result << 1) | symbol as u128;
 
             let tmp = self.bvs[level].rank1_unchecked(cur_i);
 
@@ -348,7 +348,7 @@ where
 
         if COMPRESSED {
             let idx = self.codes_decode.as_ref().unwrap()[shift]
-                .binary_search_by_key(&result, |(x, _)| *x)
+                .binary_search_by_key(&(result as u32), |(x, _)| *x)
                 .expect("could not translate symbol");
 
             T::from(self.codes_decode.as_ref().unwrap()[shift][idx].1).unwrap()
@@ -395,9 +395,9 @@ where
         if COMPRESSED {
             let code = &self.codes_encode.as_ref().unwrap()[symbol.as_() as usize];
             symbol_len = code.len as usize;
-            repr = code.content;
+            repr = code.content as u128;
         } else {
-            repr = symbol.as_() as u32;
+            repr = symbol.to_u128().unwrap();
             symbol_len = self.n_levels;
         }
 
@@ -436,9 +436,9 @@ where
         if COMPRESSED {
             let code = &self.codes_encode.as_ref().unwrap()[symbol.as_() as usize];
             symbol_len = code.len as usize;
-            repr = code.content;
+            repr = code.content as u128;
         } else {
-            repr = symbol.as_() as u32;
+            repr = symbol.to_u128().unwrap();
             symbol_len = self.n_levels;
         }
         let mut b = 0;
